@@ -382,8 +382,12 @@ class ComponentLevel2( ComponentLevel1 ):
 
       for k in m._dsl.RD_U_constraints:
         s._dsl.all_RD_U_constraints[k] -= m._dsl.RD_U_constraints[k]
+        if not s._dsl.all_RD_U_constraints[k]:
+          del s._dsl.all_RD_U_constraints[k]
       for k in m._dsl.WR_U_constraints:
         s._dsl.all_WR_U_constraints[k] -= m._dsl.WR_U_constraints[k]
+        if not s._dsl.all_WR_U_constraints[k]:
+          del s._dsl.all_WR_U_constraints[k]
 
       for k in m._dsl.upblks:
         del s._dsl.all_upblk_reads[k]
